@@ -22,7 +22,7 @@ def NormalData (d : KeyData) : Prop :=
 /-- what `copyKey` demands of an exported key -/
 structure ImportableKey (k : Key) : Prop where
   period : k.since ≤ k.until_
-  nonempty : k.data ≠ []
+  nonempty : k.data ≠ [] ∨ k.state = stDestroyed
   formats : (k.data.map (·.format)).Nodup
   normal : ∀ d ∈ k.data, NormalData d
 
@@ -78,7 +78,12 @@ theorem copy_then_export (c : CryptoOps) (hl : SealLaws c) (hne : EncNonEmpty c)
   obtain ⟨es, h1, h2⟩ := addAll_then_decryptAll c hl hne ν hν master path k.seq hm k.data hk.normal
   refine ⟨{ k with data := es }, ?_, rfl, rfl, rfl, rfl, h2⟩
   have hp : ¬ k.since > k.until_ := by have := hk.period; omega
-  simp [copyKey, hp, hk.nonempty, hk.formats, h1]
+  have hne' : ¬ (k.data = [] ∧ k.state ≠ stDestroyed) := by
+    intro ⟨a, b⟩
+    rcases hk.nonempty with h | h
+    · exact h a
+    · exact b h
+  simp only [copyKey, if_neg hp, if_neg hne', hk.formats, not_true_eq_false, if_false, h1, Option.map_some]
 
 theorem copyAll_then_export (c : CryptoOps) (hl : SealLaws c) (hne : EncNonEmpty c) (ν : Nonces) (hν : NoncesOk ν)
     (master path : Bytes) (hm : master ≠ []) :
